@@ -25,6 +25,11 @@ LIN = ('strchr', 'strrchr', 'strspn', 'strcspn', 'strlen', 'strstr', 'strpbrk', 
 
 
 # ------------------------------------------------------------------------------------------ provenance
+class ProvUnknown(Exception):
+    """the pointer comes from something the provenance rule has no model for (e.g. the result of a helper function):
+    that is neither a pass nor an alarm - the check stops with exit 2 and names the construct"""
+
+
 class Prov:
     def __init__(self, tu, fname, paths):
         self.tu = tu; self.fname = fname; self.paths = paths
@@ -77,6 +82,8 @@ class Prov:
         if m:
             c = [e for e in p.events[:i] if e[0] == 'call' and e[3] == X]
             if c and c[0][1] in SEARCH: return (p.passed(X, True, before=i) or self.counted(X, c[0], p, i)) and self.safe(c[0][2][0], p, p.events.index(c[0]), depth + 1)
+            if c and c[0][1] in ('malloc', 'calloc', 'strndup', 'strdup'): return p.passed(X, True, before=i)
+            if c: raise ProvUnknown(f'{X} = {c[0][1]}(...): no model for what this call returns')
             return False
         m = re.fullmatch(r"(\w+)@((?:\w+)#\d+'*)", X)                  # out-parameter filled by a call
         if m:
@@ -262,7 +269,7 @@ def run(ck):
     r62.instance('src/is_ascii_domain.c:is_ascii_domain(prologue)', ok=bad is None, wclass='out-of-range-read', what=f'length pre-checks of is_ascii_domain: {bad}')
     # ---- R6.2p pointer provenance in the non-scanner code
     r62p = ck.rule('R6.2p', 'non-scanner code: every pointer passed to a NUL-scanning libc function, copied from, or dereferenced with an offset lies within [first byte, terminator] of a NUL-terminated object (provenance by def-use on every path)', 60)
-    r63 = ck.rule('R6.3', 'every write into a fixed-size local array is bounded below its size by guards that dominate it', 7)
+    r63 = ck.rule('R6.3', 'every write into a fixed-size local array is bounded below its size by guards that dominate it', 3)
     r67 = ck.rule('R6.7', 'every is_*_email path returns the one record it allocated; eav_result_free releases it (C16 R16.6), the converter output is released on every path (C19 R19.2b), the previous result is released before being overwritten (C13 R13.1)', 6)
     targets = [(k, f'is_{m}_email') for m, k in emailfn.ASCII.items()] + [(f'partial/{b}/is_6531_email.c', 'is_6531_email') for b in BACKENDS] + \
               [(f'partial/{b}/is_utf8_domain.c', 'is_utf8_domain') for b in BACKENDS] + [('src/is_special_domain.c', 'is_special_domain'), ('src/is_tld.c', 'is_tld'), ('src/is_ipv4_ipv6.c', 'is_ipaddr')]
@@ -273,71 +280,72 @@ def run(ck):
         site = f'{key}:{fn}'; ck.analysed(functions=[site])
         bad = {}; n = 0; badbuf = {}; nbuf = 0
         for p in paths:
+          try:
             for i, e in enumerate(p.events):
-                if e[0] == 'call' and e[1] in NUL_SCANNERS:
-                    for ai in NUL_SCANNERS[e[1]]:
-                        if ai < len(e[2]):
-                            n += 1
-                            if not pv.safe(e[2][ai], p, i): bad.setdefault(f'{e[1]}({", ".join(e[2])}): argument {e[2][ai]} is not known to point into the string', where(e[4]))
-                if e[0] == 'call' and re.fullmatch(r'is_\w+', e[1]):
-                    # the library's own validators get (start, end) ranges: both must lie inside the string
-                    for a in e[2]:
-                        if a in ('tld_check', 'ctx', 'actions') or a.startswith('&') or a.isdigit(): continue
-                        n += 1
-                        endish = re.fullmatch(r'\((\w+) \+ length\)', a) and a[1:].split(' ')[0] in pv.params
-                        m2 = re.fullmatch(r"\((.+) \+ (strlen#\d+'*)\)", a)
-                        if m2:
-                            sl = [c for c in p.events[:i] if c[0] == 'call' and c[3] == m2.group(2)]
-                            endish = bool(sl) and sl[0][2] == (m2.group(1),) and pv.safe(m2.group(1), p, i)
-                        m3 = re.fullmatch(r"\((.+) \+ \((strlen#\d+'*) - (\d+)\)\)", a)
-                        if m3:
-                            # end pointer moved back by n bytes: needs strlen >= n established on the path
-                            sl = [c for c in p.events[:i] if c[0] == 'call' and c[3] == m3.group(2)]
-                            nn = int(m3.group(3))
-                            ge = any(x[0] == 'cond' and ((re.fullmatch(re.escape('(' + m3.group(2)) + r' >= (\d+)\)', x[1]) and x[2] and int(re.fullmatch(re.escape('(' + m3.group(2)) + r' >= (\d+)\)', x[1]).group(1)) >= nn)
-                                                       or (re.fullmatch(re.escape('(' + m3.group(2)) + r' > (\d+)\)', x[1]) and x[2] and int(re.fullmatch(re.escape('(' + m3.group(2)) + r' > (\d+)\)', x[1]).group(1)) >= nn - 1)) for x in p.events[:i])
-                            endish = bool(sl) and sl[0][2] == (m3.group(1),) and pv.safe(m3.group(1), p, i) and ge
-                        if not (endish or pv.safe(a, p, i)): bad.setdefault(f'{e[1]}({", ".join(e[2])}): argument {a} is not known to point into the string', where(e[4]))
-                if e[0] == 'call' and e[1] == 'memcpy':
-                    dst, src, ln = e[2]
-                    n += 1
-                    ok = pv.safe(src, p, i)
-                    m = re.fullmatch(r'\((.+) - (.+)\)', ln)
-                    if not (m and m.group(2) == src and (m.group(1) == 'end' or pv.safe(m.group(1), p, i))): ok = False
-                    if not ok: bad.setdefault(f'memcpy({dst}, {src}, {ln}): source range is not known to lie inside the string', where(e[4]))
-                    if dst in pv.arrays:
-                        nbuf += 1
-                        conds = len_conds(p, ln, i)
-                        size = pv.arrays[dst]
-                        # the terminator is written at dst[len]: len must stay below size
-                        if not conds or any(shared_admits(conds, x) for x in (size, size + 1, size * 2, 10 ** 6)):
-                            badbuf.setdefault(f'memcpy({dst}, ..., {ln}) into {dst}[{size}] is not bounded below {size} by the guards before it', where(e[4]))
-                if e[0] == 'call' and e[1] == 'idn_res_encodename' and len(e[2]) >= 5 and e[2][3] in pv.arrays:
-                    nbuf += 1
-                    if not (e[2][4].isdigit() and int(e[2][4]) < pv.arrays[e[2][3]]): badbuf.setdefault(f'idn_res_encodename writes up to {e[2][4]} bytes into {e[2][3]}[{pv.arrays[e[2][3]]}]', where(e[4]))
-                if e[0] == 'set' and re.fullmatch(r'(\w+)\[(.+)\]', e[1]) and e[1].split('[')[0] in pv.arrays:
-                    A = e[1].split('[')[0]; idx = e[1][len(A) + 1:-1]; nbuf += 1
-                    conds = len_conds(p, idx, i); size = pv.arrays[A]
-                    cm = None
-                    mm = re.fullmatch(r"(\w+)@L\d+'*", idx)
-                    if mm: cm = pv.counter_max(mm.group(1))
-                    if cm is not None and cm < size: pass
-                    elif not (idx.isdigit() and int(idx) < size) and (not conds or any(shared_admits(conds, x) for x in (size, size + 1, size * 2, 10 ** 6))):
-                        badbuf.setdefault(f'{e[1]} := {e[2]}: index not bounded below {size}', where(e[3]))
-                # offset dereferences in conditions / values
-                for s in eavobj.event_values(e):
-                    for m in re.finditer(r"(\w+|\([^()]*(?:\([^()]*\)[^()]*)*\))\[(-?\d+)\]", s):
-                        base, k = m.group(1), int(m.group(2))
-                        if base in pv.arrays or base in ('reserved', 'example', 'errors', 'tld_list') or '__ctype' in base or '__ctype' in s[:m.start()][-30:]: continue
-                        n += 1
-                        if k >= 0:
-                            ok = pv.safe(base if k == 0 else f'({base} + {k})', p, i)
-                        else:
-                            # end[-1]: the range must be known non-empty
-                            ok = base == 'end' and k == -1 and (p.passed('(start == end)', False, before=i) or any(c[1] in SEARCH and c[2][0] == 'start' and p.passed(c[3], True, before=i) for c in p.calls()))
-                        if not ok: bad.setdefault(f'{m.group(0)}: offset access not known to stay inside the string', where(e[-1]) if isinstance(e[-1], dict) else '?')
-            if fn.endswith('_email'):
-                if p.events and p.events[-1][0] == 'abort': continue
+                  if e[0] == 'call' and e[1] in NUL_SCANNERS:
+                      for ai in NUL_SCANNERS[e[1]]:
+                          if ai < len(e[2]):
+                              n += 1
+                              if not pv.safe(e[2][ai], p, i): bad.setdefault(f'{e[1]}({", ".join(e[2])}): argument {e[2][ai]} is not known to point into the string', where(e[4]))
+                  if e[0] == 'call' and re.fullmatch(r'is_\w+', e[1]):
+                      # the library's own validators get (start, end) ranges: both must lie inside the string
+                      for a in e[2]:
+                          if a in ('tld_check', 'ctx', 'actions') or a.startswith('&') or a.isdigit(): continue
+                          n += 1
+                          endish = re.fullmatch(r'\((\w+) \+ length\)', a) and a[1:].split(' ')[0] in pv.params
+                          m2 = re.fullmatch(r"\((.+) \+ (strlen#\d+'*)\)", a)
+                          if m2:
+                              sl = [c for c in p.events[:i] if c[0] == 'call' and c[3] == m2.group(2)]
+                              endish = bool(sl) and sl[0][2] == (m2.group(1),) and pv.safe(m2.group(1), p, i)
+                          m3 = re.fullmatch(r"\((.+) \+ \((strlen#\d+'*) - (\d+)\)\)", a)
+                          if m3:
+                              # end pointer moved back by n bytes: needs strlen >= n established on the path
+                              sl = [c for c in p.events[:i] if c[0] == 'call' and c[3] == m3.group(2)]
+                              nn = int(m3.group(3))
+                              ge = any(x[0] == 'cond' and ((re.fullmatch(re.escape('(' + m3.group(2)) + r' >= (\d+)\)', x[1]) and x[2] and int(re.fullmatch(re.escape('(' + m3.group(2)) + r' >= (\d+)\)', x[1]).group(1)) >= nn)
+                                                         or (re.fullmatch(re.escape('(' + m3.group(2)) + r' > (\d+)\)', x[1]) and x[2] and int(re.fullmatch(re.escape('(' + m3.group(2)) + r' > (\d+)\)', x[1]).group(1)) >= nn - 1)) for x in p.events[:i])
+                              endish = bool(sl) and sl[0][2] == (m3.group(1),) and pv.safe(m3.group(1), p, i) and ge
+                          if not (endish or pv.safe(a, p, i)): bad.setdefault(f'{e[1]}({", ".join(e[2])}): argument {a} is not known to point into the string', where(e[4]))
+                  if e[0] == 'call' and e[1] == 'memcpy':
+                      dst, src, ln = e[2]
+                      n += 1
+                      ok = pv.safe(src, p, i)
+                      m = re.fullmatch(r'\((.+) - (.+)\)', ln)
+                      if not (m and m.group(2) == src and (m.group(1) == 'end' or pv.safe(m.group(1), p, i))): ok = False
+                      if not ok: bad.setdefault(f'memcpy({dst}, {src}, {ln}): source range is not known to lie inside the string', where(e[4]))
+                      if dst in pv.arrays:
+                          nbuf += 1
+                          conds = len_conds(p, ln, i)
+                          size = pv.arrays[dst]
+                          # the terminator is written at dst[len]: len must stay below size
+                          if not conds or any(shared_admits(conds, x) for x in (size, size + 1, size * 2, 10 ** 6)):
+                              badbuf.setdefault(f'memcpy({dst}, ..., {ln}) into {dst}[{size}] is not bounded below {size} by the guards before it', where(e[4]))
+                  if e[0] == 'call' and e[1] == 'idn_res_encodename' and len(e[2]) >= 5 and e[2][3] in pv.arrays:
+                      nbuf += 1
+                      if not (e[2][4].isdigit() and int(e[2][4]) < pv.arrays[e[2][3]]): badbuf.setdefault(f'idn_res_encodename writes up to {e[2][4]} bytes into {e[2][3]}[{pv.arrays[e[2][3]]}]', where(e[4]))
+                  if e[0] == 'set' and re.fullmatch(r'(\w+)\[(.+)\]', e[1]) and e[1].split('[')[0] in pv.arrays:
+                      A = e[1].split('[')[0]; idx = e[1][len(A) + 1:-1]; nbuf += 1
+                      conds = len_conds(p, idx, i); size = pv.arrays[A]
+                      cm = None
+                      mm = re.fullmatch(r"(\w+)@L\d+'*", idx)
+                      if mm: cm = pv.counter_max(mm.group(1))
+                      if cm is not None and cm < size: pass
+                      elif not (idx.isdigit() and int(idx) < size) and (not conds or any(shared_admits(conds, x) for x in (size, size + 1, size * 2, 10 ** 6))):
+                          badbuf.setdefault(f'{e[1]} := {e[2]}: index not bounded below {size}', where(e[3]))
+                  # offset dereferences in conditions / values
+                  for s in eavobj.event_values(e):
+                      for m in re.finditer(r"(\w+|\([^()]*(?:\([^()]*\)[^()]*)*\))\[(-?\d+)\]", s):
+                          base, k = m.group(1), int(m.group(2))
+                          if base in pv.arrays or base in ('reserved', 'example', 'errors', 'tld_list') or '__ctype' in base or '__ctype' in s[:m.start()][-30:]: continue
+                          n += 1
+                          if k >= 0:
+                              ok = pv.safe(base if k == 0 else f'({base} + {k})', p, i)
+                          else:
+                              # end[-1]: the range must be known non-empty
+                              ok = base == 'end' and k == -1 and (p.passed('(start == end)', False, before=i) or any(c[1] in SEARCH and c[2][0] == 'start' and p.passed(c[3], True, before=i) for c in p.calls()))
+                          if not ok: bad.setdefault(f'{m.group(0)}: offset access not known to stay inside the string', where(e[-1]) if isinstance(e[-1], dict) else '?')
+          except ProvUnknown as u:
+            raise AnalysisBroken(f'{site}: pointer provenance cannot be judged: {u}')
         for why, at in bad.items(): r62p.instance(site, ok=False, wclass='provenance:' + why.split(':')[0][:40], what=f'{why} ({at})')
         for _ in range(max(n - len(bad), 0)): r62p.instance(site, ok=True)
         for why, at in badbuf.items(): r63.instance(site, ok=False, wclass='buffer:' + why.split(' ')[0][:30], what=f'{why} ({at})')
